@@ -25,6 +25,7 @@ package cache
 import (
 	"bytes"
 	"encoding/binary"
+	"io"
 	"time"
 	"unsafe"
 
@@ -51,6 +52,14 @@ func readUint32ToInt(buffer *bytes.Buffer) (int, error) {
 		return 0, err
 	}
 	return int(value), nil
+}
+
+// readBytes read size bytes, it returns an error if the buffer holds less (truncated data)
+func readBytes(buffer *bytes.Buffer, size int) ([]byte, error) {
+	if size < 0 || size > buffer.Len() {
+		return nil, io.ErrUnexpectedEOF
+	}
+	return buffer.Next(size), nil
 }
 
 // uint64ToBytes convert int64 to uint64 and covert to bytes
